@@ -17,7 +17,6 @@ turn them into small integers / pairwise allclose flags for TLC (DESIGN.md 1.3).
 """
 import contextlib
 import copy
-import os
 import shutil
 import tempfile
 
